@@ -1172,10 +1172,15 @@ class Processor:
                             data[slice_index], data, slice_index,
                             translated_path + "[{}]".format(slice_index),
                             ancestry + [(data, slice_index)], pathseg))
-                    yield NodeCoords(
-                        sliced_elements, data, intmin,
-                        translated_path + "[{}:{}]".format(intmin, intmax),
-                        ancestry + [(data, intmin)], pathseg)
+                    # An empty slice matches nothing; relaying an empty
+                    # result would have callers change or delete whatever
+                    # element sits at the slice's start.
+                    if sliced_elements:
+                        yield NodeCoords(
+                            sliced_elements, data, intmin,
+                            translated_path + "[{}:{}]".format(
+                                intmin, intmax),
+                            ancestry + [(data, intmin)], pathseg)
 
             elif isinstance(data, dict):
                 for key, val in data.items():
